@@ -45,7 +45,7 @@ def c_val2bytes(T):
         lo, hi = int_range(T)
         dec = "s_le" if L == "I" else "u_le"
         return Contract(
-            q, params={"val": "int", "att": ("const", T)}, returns="bytes",
+            q, params={"val": "int", "att": ("const", T)}, returns=("bytesn", n),
             ensures=[("width", f"len(result) == {n}"), ("value", f"{dec}(result) == val")],
             raises={"OverflowError": f"not ({lo} <= val < {hi})"},
             raises_iff={"OverflowError": f"not ({lo} <= val < {hi})"},
@@ -57,9 +57,10 @@ def c_val2bytes(T):
             notes="no length check in the code (finding F-15c); C18 quantifies over len(val) == size only")
     if L == "R":
         return Contract(
-            q, params={"val": "float", "att": ("const", T)}, returns="bytes",
+            q, params={"val": "float", "att": ("const", T)}, returns=("bytesn", n),
             ensures=[("width", f"len(result) == {n}")] + ([("ieee", "unpackf(result) == val")] if n == 8 else []),
-            raises={"OverflowError": None} if n == 4 else {}, modifies=[])
+            raises={"OverflowError": "not fits_float32(val)"} if n == 4 else {},
+            raises_iff={"OverflowError": "not fits_float32(val)"} if n == 4 else {}, modifies=[])
     if L == "A":
         return Contract(
             q, params={"val": ("bytelist", n), "att": ("const", T)}, returns="bytes",
@@ -200,3 +201,82 @@ def install(reg):
     reg.family(H + "val2bytes", "att", fam_v2b)
     reg.family(H + "bytes2val", "att", fam_b2v)
     reg.family(H + "nomval", "att", fam_nom)
+
+
+# --------------------------------------------------------------------------------------------------------------
+# C15: val2bytes for *any* Python scalar (not only values of the field's own kind)
+# --------------------------------------------------------------------------------------------------------------
+TRANSLATED = ("TypeError", "OverflowError", "ValueError", "AttributeError", "IndexError", "error", "UBXTypeError")
+ANY_KINDS = ("int", "float", "str", "bytes", "list-short", "list-exact", "list-long", "none", "tuple")
+
+
+def any_value(kind, T):
+    """input builder for one Python kind of value"""
+    n = tsize(T)
+
+    def build(ex, name):
+        import z3
+        from pvc.values import SInt, SFloat, SStr, SBytes, Opaque, Base, FSort, mk_bool
+        st = ex.st
+        if kind == "int":
+            e = z3.Int(name)
+            st.inputs[name] = ("int", e)
+            return SInt(e)
+        if kind == "float":
+            return SFloat(z3.Const(name, FSort))
+        if kind == "str":
+            return SStr((Opaque("any-text"),))
+        if kind == "bytes":
+            b, ln = Base(name), z3.Int(name + "_len")
+            st.assume(mk_bool(ln >= 0))
+            st.inputs[name] = ("bytes", b, ln)
+            return SBytes.view(b, 0, ln)
+        if kind.startswith("list"):
+            m = {"list-short": max(n - 1, 0), "list-exact": max(n, 0), "list-long": max(n, 0) + 1}[kind]
+            items, descr = [], []
+            for i in range(min(m, 300)):
+                e = z3.Int(f"{name}_{i}")
+                items.append(SInt(e))
+                descr.append(("int", e))
+            st.inputs[name] = ("list", descr)
+            return st.alloc("list", None, items=items)
+        if kind == "none":
+            return None
+        if kind == "tuple":
+            return (1, 2)
+        raise ValueError(kind)
+
+    def native(v):
+        """concrete value of this kind for the native replay (the model's value where it has one)"""
+        if kind == "int":
+            return v if isinstance(v, int) else 0
+        if kind == "float":
+            return 1e300
+        if kind == "str":
+            return "x" * (n + 1 if n > 0 else 1)
+        if kind == "bytes":
+            return v if isinstance(v, bytes) else b"\x00" * (n + 1)
+        if kind.startswith("list"):
+            return list(v) if isinstance(v, (list, tuple)) else [0] * ({"list-short": max(n - 1, 0), "list-exact": n, "list-long": n + 1}[kind])
+        if kind == "none":
+            return None
+        return (1, 2)
+
+    build.native = native
+    return build
+
+
+def c15_val2bytes(arg):
+    """(T, kind): either one of the exceptions the constructor translates, or exactly size(T) bytes that decode to val"""
+    T, kind = arg
+    n = tsize(T)
+    L = T[0]
+    post = [("width", f"len(result) == {n}")] if T != "CH" else []
+    if L in INT_LETTERS:
+        post.append(("value", f"{'s_le' if L == 'I' else 'u_le'}(result) == val"))
+    elif L in ("X", "C") and kind == "bytes":
+        post.append(("verbatim", "result == val"))
+    elif L == "A":
+        post.append(("cells", f"bytes_to_list(result, {n}) == val"))
+    return Contract(H + "val2bytes", params={"val": any_value(kind, T), "att": ("const", T)}, returns="bytes",
+                    ensures=post, raises={k: None for k in TRANSLATED}, modifies=[])
